@@ -523,6 +523,26 @@ theorem fdtTryStart_none (s : State) (now : Nat) (h : (fdtTryStart s now).2 = no
         simp at h
       · rfl
 
+theorem fdtAdvance_cases (s : State) (now : Nat) :
+    (fdtAdvance s now = fdtPop s ∧ (fdtTryStart (fdtPop s) now).2 = none) ∨
+    (∃ k f, (fdtPop s).curFdt = some k ∧ getF (fdtPop s).fdts k = some f ∧
+      shouldTransferNow f 0 (fdtPop s).cfg.mode now = true ∧
+      fdtAdvance s now = { fdtStartStep (fdtPop s) k now with fdtSess := some (startFdtCur k) }) := by
+  unfold fdtAdvance
+  generalize fdtPop s = s1
+  unfold fdtTryStart
+  cases hk : s1.curFdt with
+  | none => left; simp
+  | some k =>
+    simp only []
+    cases hf : getF s1.fdts k with
+    | none => left; simp
+    | some f =>
+      simp only []
+      by_cases hst : shouldTransferNow f 0 s1.cfg.mode now = true
+      · right; exact ⟨k, f, rfl, hf, hst, by simp [hst]⟩
+      · left; simp [hst]
+
 theorem runFdt_none : ∀ fuel s now s', runFdt fuel s now = (s', Out.none) → FdtQuiet s' now := by
   intro fuel
   induction fuel with
